@@ -506,12 +506,17 @@ def lit_kinds(f):
 
 
 def load_known_d(chk):
-    """the assembled known_findings.json is a shared file: take C02's entries from known.d/C02.json"""
+    """the assembled known_findings.json is a shared file that may lag behind: C02's entries are taken from known.d/C02.json"""
     p = VERIF / "known.d" / f"{PROP}.json"
     if p.exists():
+        chk.known = {"known": {}, "fixed": {}}
         for f in json.loads(p.read_text()).get("findings", []):
-            if f.get("property") == PROP and f.get("status") == "known":
-                chk.known["known"].setdefault(f["key"], f)
+            if f.get("property") != PROP:
+                continue
+            if f.get("status") == "known":
+                chk.known["known"][f["key"]] = f
+            elif str(f.get("status", "")).startswith("fixed"):
+                chk.known["fixed"][f["key"]] = f
 
 
 def corpus_cases():
